@@ -27,6 +27,7 @@ type entry struct {
 	removed    bool // a removal notice for exactly this log was delivered later
 	reorgDead  bool // a removal notice at or below its L1 block was delivered later
 	lastDelTik int  // number of polls completed when it was delivered last (first delivery or replay)
+	lastDel    int  // trace position of the last delivery (first delivery or replay)
 	consumed   int  // number of the first poll (1-based) with fin >= l1 after the first delivery; 0 = none yet
 }
 
@@ -76,6 +77,7 @@ func oracle(c *Case, sems []sem) (fs []finding, wbUntil int, stats map[string]in
 				for _, e := range es {
 					if !e.removed && sameLog(e.log, s.log) {
 						e.lastDelTik = ticks
+						e.lastDel = i
 						replay = true
 						if e.consumed > 0 || e.stamp < 0 {
 							stats["replay-of-finalised-event"]++
@@ -83,7 +85,7 @@ func oracle(c *Case, sems []sem) (fs []finding, wbUntil int, stats map[string]in
 					}
 				}
 				if !replay {
-					es = append(es, &entry{log: s.log, stamp: i, lastDelTik: ticks})
+					es = append(es, &entry{log: s.log, stamp: i, lastDelTik: ticks, lastDel: i})
 				}
 				continue
 			}
@@ -146,13 +148,40 @@ func oracle(c *Case, sems []sem) (fs []finding, wbUntil int, stats map[string]in
 				continue
 			}
 			stats["oracle-polls"]++
-			var expected *HeadJ
-			if best != nil {
-				h := best.head()
-				expected = &h
+			// several events in the top L1 block: the one committing the highest Starknet block is
+			// the reference; the one delivered last ("latest event seen there") is accepted too
+			var lastSeen *entry
+			for _, e := range cands {
+				if best != nil && e.log.L1 == best.log.L1 && (lastSeen == nil || e.lastDel > lastSeen.lastDel) {
+					lastSeen = e
+				}
 			}
 			obs := s.after
-			if !headEq(obs, expected) {
+			// the entry the previous head came from (if it is still a candidate)
+			var prevEntry *entry
+			if prev != nil {
+				for _, e := range cands {
+					if e.head() == *prev && (prevEntry == nil || better(e, prevEntry)) {
+						prevEntry = e
+					}
+				}
+			}
+			acceptable := (best == nil && obs == nil) ||
+				(best != nil && obs != nil && (best.head() == *obs || lastSeen.head() == *obs))
+			// a late, older event of the block the head already comes from may be ignored
+			if !acceptable && best != nil && obs != nil && prevEntry != nil && prevEntry.log.L1 == best.log.L1 &&
+				lastSeen.log.L2 < prevEntry.log.L2 && prevEntry.head() == *obs {
+				acceptable = true
+				stats["late-older-event-of-head-block-ignored"]++
+			}
+			if lastSeen != nil && lastSeen != best {
+				stats["top-block-last-seen-is-not-highest-l2"]++
+			}
+			var cause *entry
+			if acceptable && best != nil && lastSeen.head() == *obs {
+				cause = lastSeen
+			}
+			if !acceptable {
 				fs = append(fs, classify(es, best, obs, prev, F, i))
 			} else {
 				if best != nil && best.stamp >= 0 {
@@ -168,8 +197,37 @@ func oracle(c *Case, sems []sem) (fs []finding, wbUntil int, stats map[string]in
 						what: fmt.Sprintf("stored head moved %s -> %s and no listener/feed notification", prev, obs), at: i})
 				}
 				if obs != nil && prev != nil && obs.L2 < prev.L2 {
-					fs = append(fs, finding{sig: "l1head-l2-regress",
-						what: fmt.Sprintf("stored head went from Starknet block %d back to %d", prev.L2, obs.L2), at: i})
+					sig := "l1head-l2-regress"
+					what := fmt.Sprintf("after the poll that reported finalised height %d the stored head went from Starknet block %d back to %d", F, prev.L2, obs.L2)
+					if cause != nil && prevEntry != nil && cause != prevEntry &&
+						(prevEntry.stamp < 0 || (prevEntry.consumed > 0 && cause.lastDelTik >= prevEntry.consumed)) {
+						sig = "l1head-moves-back-to-late-delivered-older-event"
+						what += fmt.Sprintf("; the event at L1 block %d (Starknet block %d) was delivered after the head had already been set from L1 block %d (Starknet block %d)",
+							cause.log.L1, cause.log.L2, prevEntry.log.L1, prevEntry.log.L2)
+					}
+					fs = append(fs, finding{sig: sig, what: what, at: i})
+				}
+			}
+			// A completed start-up scan must have found the highest finalised log of the provider's
+			// history, not only of what it happened to query (catchup_spec).
+			if s.src == "catchup" && acceptable && histWellBehaved(c) && c.Fin1 <= F {
+				lim := F
+				if c.Latest < lim {
+					lim = c.Latest
+				}
+				var top *Log
+				for i := range c.Hist {
+					l := &c.Hist[i]
+					if l.L1 <= lim && (top == nil || l.L1 > top.L1 || (l.L1 == top.L1 && l.L2 > top.L2)) {
+						top = l
+					}
+				}
+				stats["oracle-catchup-scans"]++
+				if top != nil && (obs == nil || (HeadJ{L2: top.L2, Hash: top.Hash, Root: top.Root}) != *obs) &&
+					(c.Stored == nil || c.StoredL1 < top.L1) {
+					fs = append(fs, finding{sig: "l1head-catchup-misses-highest-finalised-log",
+						what: fmt.Sprintf("completed catch-up (latest %d, finalised %d then %d, chunk %d) left the stored head at %s; the provider's history has the state update of Starknet block %d in L1 block %d",
+							c.Latest, c.Fin1, F, c.Chunk, obs, top.L2, top.L1), at: i})
 				}
 			}
 			for _, e := range es {
@@ -181,6 +239,30 @@ func oracle(c *Case, sems []sem) (fs []finding, wbUntil int, stats map[string]in
 		}
 	}
 	return fs, wbUntil, stats
+}
+
+// histWellBehaved: the log history served to the catch-up scan is what eth_getLogs of one canonical
+// chain returns: no removed logs, chain order, sequential Starknet block numbers; a head stored
+// by an earlier life of the node is one of its logs.
+func histWellBehaved(c *Case) bool {
+	for i, l := range c.Hist {
+		if l.Removed {
+			return false
+		}
+		if i > 0 && (c.Hist[i-1].L1 > l.L1 || c.Hist[i-1].L2 >= l.L2) {
+			return false
+		}
+	}
+	if c.Stored != nil {
+		ok := false
+		for _, l := range c.Hist {
+			if l.L1 == c.StoredL1 && l.L2 == c.Stored.L2 && l.Hash == c.Stored.Hash && l.Root == c.Stored.Root {
+				ok = true
+			}
+		}
+		return ok
+	}
+	return true
 }
 
 func classify(es []*entry, best *entry, obs, prev *HeadJ, F uint64, at int) finding {
